@@ -22,12 +22,14 @@ Inductive lop :=
 | LRequest (upTo : Z)          (* a Request reaches the producer controller *)
 | LStore (count : Z)           (* the open handshake stores a message of count chunks *)
 | LRegister                    (* a (re-)registration reaches the producer controller *)
+| LTerminated                  (* the consumer controller is reported dead (handleTerminated) *)
 | LEmit.                       (* acceptance / timeout resend: emit what the demand allows *)
 
 Record ledger := mkL { l_cur : Z; l_demand : Z; l_maxreq : Z; l_open : bool; l_maxemit : Z }.
 Definition l_init : ledger := mkL 0 0 0 false 0.
 
-Definition lstep (fixed : bool) (s : ledger) (o : lop) : ledger :=
+(* fr / ft: the repaired rule min(demandUpTo, currentSeq) in handleRegisterConsumer / handleTerminated *)
+Definition lstep2 (fr ft : bool) (s : ledger) (o : lop) : ledger :=
   match o with
   | LRequest u =>
     let open := l_open s || (l_cur s <? u) in
@@ -35,10 +37,16 @@ Definition lstep (fixed : bool) (s : ledger) (o : lop) : ledger :=
   | LStore n =>
     if l_open s && (1 <=? n) then mkL (l_cur s + n) (l_demand s) (l_maxreq s) false (l_maxemit s) else s
   | LRegister =>
-    mkL (l_cur s) (if fixed then Z.min (l_demand s) (l_cur s) else l_cur s) (l_maxreq s) (l_open s) (l_maxemit s)
+    mkL (l_cur s) (if fr then Z.min (l_demand s) (l_cur s) else l_cur s) (l_maxreq s) (l_open s) (l_maxemit s)
+  | LTerminated =>
+    mkL (l_cur s) (if ft then Z.min (l_demand s) (l_cur s) else l_cur s) (l_maxreq s) (l_open s) (l_maxemit s)
   | LEmit =>
     mkL (l_cur s) (l_demand s) (l_maxreq s) (l_open s || (l_cur s <? l_demand s)) (Z.max (l_maxemit s) (Z.min (l_cur s) (l_demand s)))
   end.
+
+Definition lstep (fixed : bool) (s : ledger) (o : lop) : ledger := lstep2 fixed fixed s o.
+
+Definition lrun2 (fr ft : bool) (ops : list lop) : ledger := fold_left (lstep2 fr ft) ops l_init.
 
 Definition lrun (fixed : bool) (ops : list lop) : ledger := fold_left (lstep fixed) ops l_init.
 
@@ -59,7 +67,16 @@ Proof.
   - destruct (l_open s && (1 <=? count)); cbn; split; lia.
   - split; lia.
   - split; lia.
+  - split; lia.
 Qed.
+
+(* the consumer-death path: with the registration rule repaired but handleTerminated still parking the demand at
+   currentSeq, the replacement's registration keeps min(currentSeq, currentSeq) and the pending chunks go out beyond
+   every request *)
+Definition witness_term : list lop := [LRequest 4; LStore 3; LEmit; LStore 3; LTerminated; LRegister; LEmit].
+
+Lemma chunked_terminated_refuted : exists ops, l_maxemit (lrun2 true false ops) > l_maxreq (lrun2 true false ops).
+Proof. exists witness_term. vm_compute. reflexivity. Qed.
 
 (* the same witness is harmless under the repaired rule *)
 Example witness_fixed : l_maxemit (lrun true witness) = 4 /\ l_maxreq (lrun true witness) = 4.
